@@ -47,6 +47,10 @@ def known_match(prop, v, known):
                 continue
         elif k.get("signature") != v["sig"]:
             continue
+        if k.get("trigger_min_files"):
+            nfiles = len((((v.get("plan") or {}).get("fs") or {}).get("files")) or {})
+            if nfiles < int(k["trigger_min_files"]):
+                continue
         pat = k.get("trigger_regex")
         if pat:
             blob = json.dumps(v.get("plan") or v.get("request") or {}, sort_keys=True)
